@@ -1365,7 +1365,8 @@ func (r *runner) runBaseline() map[int]*baseEntry {
 				}
 				r.res.violation("C12/reference-vs-model/"+diffs[0].Kind, fmt.Sprintf("data set %d (flush mode %s): %s: %d differences to the naive model, first: %s", r.ds.Index, r.ds.FlushMode, q.FullSQL, len(diffs), diffs[0]),
 					map[string]interface{}{"sql": q.FullSQL, "seed": r.seed, "data_set": r.ds.Index, "diffs": ds, "got": canonOf(be.Full, be.Header)})
-				be.Skip = "reference differs from the model"
+				// the layouts are still compared with this reference: a defect of the wire format or of the merge shows in both ways
+				r.res.count("references_that_differ_from_the_model_and_are_still_used_for_layout_comparison", 1)
 			} else {
 				r.res.count("reference_results_equal_to_the_naive_model", 1)
 				if !q.exp.Empty() {
